@@ -116,6 +116,23 @@ def main(tier, replay=None):
         for k, v in cc.drift_summary(nodes, drifts, limit=0).items():
             drift[k] = drift.get(k, 0) + v
         os.remove(part)
+    variants = {}
+    if thorough:
+        # the quick input set again on builds with the small-string optimisation switched on
+        qitems, qn, _ = cc.gen_items("MC_Codec_c04_quick.cfg", wd, "quick")
+        for feat in cc.SSO_FEATURES:
+            vb = cc.build_variant(feat)
+            vt = os.path.join(wd, "records_%s.ndjson" % feat)
+            vh = vlib.harness(vb, ["c04", "--vectors", qitems, "--exhaust", "3", "--random", "30000", "--seed", str(vlib.seed()),
+                                   "--threads", str(cc.workers(tier)), "--out", vt], timeout=1500)
+            viols, drifts, tres = cc.judge("C04", vt, wd, tier)
+            nodes = cc.load_nodes(vt, [n for n, _ in viols])
+            cc.group(PROP, nodes, viols, cc.pattern_c04, groups, tag="c04")
+            variants[feat] = {"inputs": vh["inputs"], "accepted": vh["accepted"], "panics": vh["panics"], "judged": tres["distinct"] - 2,
+                              "violating_records": len(viols)}
+            judged += tres["distinct"] - 2
+            nviol += len(viols)
+            os.remove(vt)
     for i, k in enumerate(sorted(drift)):
         if i < 6:
             print("DRIFT %s occurrences=%d" % (k, drift[k]))
@@ -136,6 +153,7 @@ def main(tier, replay=None):
         "accepted_inputs": hs["accepted"],
         "panics_observed": hs["panics"],
         "spec_mutants": nitems,
+        "sso_feature_builds": variants,
         "states": mc["distinct"],
         "transitions": mc["printed"],
         "inputs_per_operator": {k: v[0] for k, v in by_op.items()},
